@@ -75,6 +75,16 @@ CHECKS = {
   note="bounded families as stated, not all byte strings; a fatal error is reported only if it recurs 3 times in a fresh process with the default stack limit; hangs are bounded by the family budget (reported as not exhaustive, never as a verdict)",
   tech="bounded-exhaustive enumeration of token strings and of deviation-bounded neighbourhoods of valid documents (E2) with a crash-isolating subprocess runner for the depth sweep",
   ref="DESIGN.md §5 C10"),
+ "C14": dict(
+  text="the library is rebuilt from the current tree with every map iteration (93 for-range sites and 16 maps.Keys/Values/All calls found by the type checker) routed through a runtime that asks the explorer for the iteration order; for 9 workloads (authorize / batch-authorize policies that fail in two record fields at once; marshal; decode-then-re-encode of policy, policy-set, entity and schema documents) every execution with <=1 (quick) / <=2 (thorough) deviating iteration orders is run (all n! orders for n<=4 keys, else reversal / rotations / adjacent transpositions) and decision, reason set, error set with messages and every produced byte string must equal the canonical execution's; plus every insertion order of <=4 policies and rotations of the entity insertion order",
+  note="bounded: <=2 deviating map iterations per execution; other sources of nondeterminism are absent (source scan in C19); the same choice sequence is re-run and must reproduce its observations",
+  tech="deviation-bounded stateless exploration of map-iteration orders on an instrumented build (go build -overlay generated from the current tree)",
+  ref="DESIGN.md §5 C14"),
+ "C19": dict(
+  text="stateless exploration of interleavings of 2 (thorough: 3) virtual threads running 8 read-only operations (Authorize, batch.Authorize, MarshalCedar, MarshalJSON, inspect, value operations, validate, PartialPolicy) on the same policy set, entity map, request, values, ASTs and batch request under a cooperative scheduler with preemption bound 2 at harness seams (quick) and bound 1 at every function entry of the library (thorough); per-thread oracle = the operation's solo result; invariant = deep digest (unexported fields, pointers, spare slice capacity) of all shared inputs and of every package-level variable of every library package, evaluated at every function entry of each operation's own run, at every context switch and at the end; baseline taken before any operation has run (first-use caches show); plus a free-running pass of the same bodies under the race detector",
+  note="bounded: 2-3 threads, 1-2 operations each, <=2 preemptions; the race-detector pass is supporting evidence (sampling), the deciding step is the bounded exploration with the digest invariant; hardware memory-model effects are out of reach",
+  tech="stateless model checking of thread interleavings (cooperative scheduler, preemption-bounded DFS with prefix replay) with a shared-state digest invariant, on an instrumented build",
+  ref="DESIGN.md §5 C19"),
  "C20": dict(
   text="explicit-state BFS over all container operation histories up to the stated depth from 14 initial states, every transition executed on the real PolicySet and compared with a Go-map model and the authorization decision table",
   note="bounded: ids {a, policy1, policy10, policy2}+loaded ids, 5 policy kinds, depth 4 (quick) / 6 (thorough); model = plain Go map",
